@@ -210,6 +210,10 @@ def run(ctx):
     if tot["probes"] and tot["confError"] * 20 > tot["probes"]:
         ctx.broken(f"too many probes outside the modelled NGINX fragment: {tot['confError']} of {tot['probes']}")
 
+    # Backend shares are compared above with the tolerance the property allows; their exact arithmetic is C15's subject.
+    ctx.dependency("C15", "weighted backends receive the shares computed by createSplitClientDistributions "
+                          "(the routing judge compares distributions up to the 0.01 pp tolerance)")
+
     ctx.finish({
         "evaluations": tot["probes"],
         "distinct_nontrivial": len(nontrivial),
